@@ -88,6 +88,23 @@ def dup_files(r):
     ]
 
 
+ENC_ODD = [b"\x01", b"\x03", b"\xff", b"", b"\x02\x00"]
+
+
+def enc_tag_files(r):
+    """components whose ENC tag (0xC2) is neither absent, 00 nor 02 (01 = firmware key, 03, FF, empty and two-byte
+    values): stored as they are, but their payload MAC must be checked like any other.  Each value appears once as
+    first, middle and last component; a sixth file mixes 00 / two-byte 01 02 / 02 (really encrypted)."""
+    out = []
+    for i in range(5):
+        vals = [ENC_ODD[(i + j) % 5] for j in range(3)]
+        out.append(({}, [({0xC2: v, 0xC4: bytes([j])} if j != 1 else {0xC4: bytes([j]), 0xC2: v}, nz(r, 4 + j), None, False)
+                         for j, v in enumerate(vals)]))
+    out.append(({"e": "n"}, [({0xC2: b"\x00"}, nz(r, 4), None, False), ({0xC2: b"\x01\x02"}, nz(r, 5), 4, False),
+                             ({0xC2: b"\x02"}, nz(r, 6), None, True)]))
+    return out
+
+
 def random_file(r):
     n = r.choice([1, 1, 2, 2, 3])
     comps = [small_comp(r, r.random() < 0.3) for _ in range(n)]
@@ -411,11 +428,11 @@ def qsplice(base_name, base, t):
 def gen_files(ctx, n_random):
     r = ctx.rng
     nb = len(boundary_files(r))
-    files = boundary_files(r) + dup_files(r) + [random_file(r) for _ in range(n_random)]
+    files = boundary_files(r) + dup_files(r) + enc_tag_files(r) + [random_file(r) for _ in range(n_random)]
     out = []
     for i, (cm, comps) in enumerate(files):
         key = B.rkey(r)
-        out.append((cm, comps, key, nb <= i < nb + 4))
+        out.append((cm, comps, key, nb <= i < nb + 4 + 6))
     return out
 
 
@@ -527,7 +544,8 @@ def search(ctx):
             if why:
                 ctx.fail("damage-accepted", fail_record("bf3", cm, comps, key, kind, param, t2, k2), "%s %r: %s" % (kind, param, why))
     # BEC2: signature + customer-key auth block + the same body at offset len(header)
-    bfiles = boundary_files(r)[1:4] + [dup_files(r)[0], dup_files(r)[3]] + [random_file(r) for _ in range(nbec2)]
+    ef = enc_tag_files(r)
+    bfiles = boundary_files(r)[1:4] + [dup_files(r)[0], dup_files(r)[3], ef[0], ef[3]] + [random_file(r) for _ in range(nbec2)]
     for i, (cm, comps) in enumerate(bfiles):
         key = bytes(r.randrange(256) for _ in range(15)) + bytes([r.choice([0, 1, 255])])
         with_ck = bool(i % 2)
@@ -619,7 +637,8 @@ def search(ctx):
     ctx.extra["rule"] = (
         "authentic files: 6 boundary shapes (empty directory, trailing 0x00 runs, last byte with non-zero high nibble, 16-aligned and "
         "encrypted payloads, several components) + 4 files holding the SAME payload two and three times (plain, encrypted, mixed with other "
-        "components; every byte of every copy damaged in every run) + random C01-shaped files with binary <= 420 bytes (1-3 components, "
+        "components; every byte of every copy damaged in every run) + 6 files with ENC tag values 01, 03, FF, empty, two-byte (each as first, "
+        "middle and last component), 00 and 02 + random C01-shaped files with binary <= 420 bytes (1-3 components, "
         "payload lengths {1,2,3,5,15,16,17,31,32,33,40,48} with trailing zero runs, 0-3 tags, declared length variants, 30%% encrypted, "
         "keys {zero, random, zero-tailed}); damage = every byte position x {8 bit flips, 00, FF, +1}, every proper prefix of the binary "
         "(re-printed as text) and of the text (character by character), suffixes %r, every single-bit change of the key (BEC2: of the "
